@@ -21,7 +21,7 @@ RULE = ("fake ACN-Data server holding 0-250 documents (unique _id, RFC-1123 stri
         "with >=1 empty page, or a document in a DST-transition hour; distinct = (page plan shape, args, fault, TZ)")
 PROBES = ["empty_page_middle", "empty_page_end", "zero_documents", "three_plus_pages", "dst_transition_doc", "timeseries_doc",
           "by_time_query", "page_chain_over_1000", "stale_meta_total", "equal_documents_query", "non_canonical_date_spelling", "fault:not_json", "fault:error_doc", "fault:connection", "invalid_site", "host_tz_non_utc",
-          "roundtrip_checked", "timeseries_spans_dst", "timeseries_leaves_and_returns_to_its_first_offset", "concurrent_generators", "interleaved_switches", "underscore_date_field",
+          "roundtrip_checked", "timeseries_spans_dst", "timeseries_leaves_and_returns_to_its_first_offset", "cursor_style_paging_same_next_href", "concurrent_generators", "interleaved_switches", "underscore_date_field",
           "new_year_query_bound", "prelude_query_on_same_client"]
 FAULT_DIMENSION = "interleaving of up to three generators of one client (seeded scheduler decides who advances); server-side faults at page k: non-JSON body, error document without _items, transport ConnectionError (client has no retry: must raise, never end silently)"
 REAL_VS_STUB = "real: DataClient, acndata.utils (http_date, parse_http_date, parse_dates); stub: requests -> in-process fake server; reference: integer epoch arithmetic + zoneinfo"
@@ -137,7 +137,7 @@ def gen(rs, tier):
         pages, mode, fault, extra, prelude = [1] * n, "plain", None, [], None
         args = {"site": args["site"] if args["site"] in ("caltech", "jpl", "office001") else "caltech", "timeseries": False}
     return {"seed": rs, "docs": docs, "pages": pages, "mode": mode, "args": args, "fault": fault, "extra_queries": extra, "prelude": prelude,
-            "stale_total": sub(rs, "stale_total").choice([0, 0, 0, 0, 1, 3, 50]),
+            "stale_total": sub(rs, "stale_total").choice([0, 0, 0, 0, 1, 3, 50]), "cursor_paging": sub(rs, "cursor").random() < 0.12,
             "equal_docs": (lambda q_: {"values": sorted(q_.choice([1.5, 2.0, 2.0, 7.25]) for _ in range(q_.randint(2, 12))),
                                        "pages": [q_.choice([1, 1, 2, 3]) for _ in range(q_.randint(1, 6))]} if q_.random() < 0.08 else None)(sub(rs, "equal_docs")),
             "host_tz": r.choice(HOST_TZ), "roundtrip": [(r.choice(DST_EPOCHS + [base]) + r.randint(-7200, 7200), r.choice(ZONES)) for _ in range(3)]}
@@ -192,6 +192,9 @@ def check(sc):
     server = FakeServer([serialise(d) for d in sc["docs"]], sc["pages"],
                         faults=({sc["fault"]["at"]: sc["fault"]["kind"]} if sc["fault"] else None))
     server.stale_total = sc.get("stale_total", 0)
+    server.cursor_mode = bool(sc.get("cursor_paging"))
+    if server.cursor_mode:
+        out.probe("cursor_style_paging_same_next_href")
     if server.stale_total:
         out.probe("stale_meta_total")
     for xq in sc.get("extra_queries", []):
@@ -317,6 +320,8 @@ def check(sc):
                     elif ids != order:
                         out.add("C20/yield_sequence", "yielded %d docs %s..., server order has %d %s... (pages %s)" % (len(ids), ids[:6], len(order), order[:6], plan))
                     exp_reqs = [server.base + exp_url] + [server.base + "sessions/%s?page=%d&tok=%d" % (a["site"], k + 2, 7919 * (k + 2)) for k in range(len(plan) - 1)]
+                    if server.cursor_mode:
+                        exp_reqs = [server.base + exp_url] + [server.base + "sessions/%s?cursor=next" % a["site"]] * (len(plan) - 1)
                     mine = [r[0] for r in server.requests if not any(x in r[0] for x in xs_)]
                     if not out.viol and mine != exp_reqs:
                         out.add("C20/requests", "requests %s, expected %s" % (mine[:5], exp_reqs[:5]))
